@@ -80,6 +80,24 @@ Json gen(sim::Rng& rng, int tier)
         }
         p["crowd"] = true;
     }
+    // short read time-outs, now and then: the stalled connection stays stalled over two or more idle scans past the time-out,
+    // so that the framework itself queues 408 answers (each with a continuation that ends the connection) behind the blocked
+    // response; neighbours are new connections that arrive before, during and after all of that
+    if (!p.flag("crowd") && p.str("during_stall") == "nothing" && rng.chance(0.2)) {
+        p["short_timeouts_ms"] = 1000;
+        p["stall_ms"] = static_cast<int>(2400 + rng.below(1400));
+        nbs = Json::array();
+        int n = static_cast<int>(rng.range(3, 7));
+        for (int i = 0; i < n; ++i) {
+            Json c = Json::object();
+            c["start_us"] = static_cast<int>(rng.below(static_cast<u64>(p.num("stall_ms", 2400) + 1500) * 1000));
+            Json gaps = Json::array();
+            gaps.push(static_cast<int>(rng.below(50000)));
+            c["gaps_us"] = gaps;
+            c["latency_us"] = static_cast<int>(5 + rng.below(200));
+            nbs.push(c);
+        }
+    }
     p["neighbours"] = nbs;
     gen_sched(rng, p, 5000, false);
     return p;
@@ -121,6 +139,12 @@ void run(const Json& plan)
     o.workers = 1;
     o.port = port;
     o.max_req = 200000;
+    const i64 short_to = std::max<i64>(0, std::min<i64>(plan.num("short_timeouts_ms", 0), 10000));
+    if (short_to > 0) {
+        o.header_timeout_ms = o.body_timeout_ms = short_to;
+        wants.resize(1); // the server ends the connection behind its 408
+        r.probe("stalled-across-idle-scans");
+    }
     w.start(o);
     // the extra request that the stalled client sends while it does not read (answered second, behind the blocked response)
     const std::string during = plan.str("during_stall", "nothing");
@@ -161,6 +185,7 @@ void run(const Json& plan)
             if (k > 0) st.push_back(httpw::send_step(actors::http_request("GET", wants[k].target, { { "Host", "sim" }, { "Connection", "keep-alive" } }, "")));
             st.push_back(httpw::step(Step::Await, 120LL * 1000000000LL, static_cast<int>(k + 1 + (extra.empty() ? 0 : 1))));
         }
+    if (short_to > 0) st.push_back(httpw::step(Step::AwaitClose, 3000LL * 1000000LL));
     st.push_back(httpw::step(Step::Close));
     auto a = std::make_shared<actors::Client>(0, port, st);
     a->custom_net = true;
@@ -233,7 +258,12 @@ void run(const Json& plan)
             ew.body = extra_want;
             wants.insert(wants.begin() + 1, ew);
         }
-        if (a->responses() != wants.size()) r.violation("C07.delivery:responses-missing", "connection 0 received " + std::to_string(a->responses()) + " of " + std::to_string(wants.size()) + " responses after it resumed reading");
+        if (short_to > 0) {
+            // behind the response the connection gets the idle scan's 408(s) and is closed by the server
+            for (size_t k = wants.size(); k < a->responses(); ++k)
+                if (a->reader.done[k].status != 408) r.violation("C07.delivery:unexpected-response", "connection 0 received a response with status " + std::to_string(a->reader.done[k].status) + " behind its own");
+        }
+        if (short_to > 0 ? a->responses() < wants.size() : a->responses() != wants.size()) r.violation("C07.delivery:responses-missing", "connection 0 received " + std::to_string(a->responses()) + " of " + std::to_string(wants.size()) + " responses after it resumed reading");
         for (size_t k = 0; k < a->responses() && k < wants.size(); ++k) {
             r.probe("stalled-" + wants[k].kind);
             if (a->reader.done[k].status != 200 || a->reader.done[k].body != wants[k].body)
